@@ -640,7 +640,10 @@ class _CB(flow.DefaultCB):
                 src = ''
                 if isinstance(op, ast.Add) and a.src and b.src and (b.src == f't({a.src})' or a.src == f't({b.src})'):
                     quals = set(quals) | {'sym'}
-                return TV(a.axes, u, _jdt(a.dtype, b.dtype), frozenset(quals), frozenset(), None, a.coef if a.coef == b.coef else (), src)
+                coef = a.coef if a.coef == b.coef else ()
+                if isinstance(op, ast.Add) and a.coef == b.coef and a.unit == b.unit:
+                    coef = _cmul(a.coef, (('2', 1),))     # x + x' with equal scale: doubles the scale (normalised by a later division)
+                return TV(a.axes, u, _jdt(a.dtype, b.dtype), frozenset(quals), frozenset(), None, coef, src)
             t, sc = (a, b) if isinstance(a, TV) else (b, a)
             if isinstance(t, TV) and isinstance(sc, SV):
                 if sc.kind == 'damping':
@@ -737,9 +740,18 @@ def _jdt(a: str, b: str) -> str:
     return f'promote({min(a, b)},{max(a, b)})'
 
 
+def _numkey(k: str) -> str:
+    try:
+        x = float(k)
+    except ValueError:
+        return k
+    return str(int(x)) if x == int(x) else repr(x)
+
+
 def _cmul(a: tuple, b: tuple, sign: int = 1) -> tuple:
-    d = dict(a)
+    d = {_numkey(k): e for k, e in a}
     for k, e in b:
+        k = _numkey(k)
         d[k] = d.get(k, 0) + sign * e
     return tuple(sorted((k, e) for k, e in d.items() if e != 0))
 
